@@ -15,12 +15,14 @@ RULE = ("scripts as for C09 (2..4 scripted modules with handler / start / task /
         "the script panics itself); or one that BEGINS WHILE A LIBRARY LOCK IS HELD: a panic inside a closure given to Prop::update / "
         "Prop::map of the module's own property, or a re-entrant access to that property from inside such a closure (the library's own "
         "'Could not lock mutex' panic), followed in the same run by reads of that property from other modules (through their ModuleRef) "
-        "and from the module itself after a restart -- placed in "
+        "and from the module itself after a restart; or a zero-delay send through a channel whose ChannelProbe panics (user code run "
+        "under the process-global event buffer lock) -- placed in "
         "handle_message, at_sim_start (initial and restarts), at_sim_end and in spawned tasks: every (module, callback kind, program, "
         "position) of a healthy base simulation, all 32 stereotypes (on_panic_catch x the four flags des never reads: on_panic_drop, "
         "on_panic_restart, on_panic_drop_submodules, on_panic_inform_parent), set_stereotyp (any of the 32) from "
         "callbacks and tasks -- in the very callback that panics, in an earlier event, in another program, before a restart --, one or "
-        "several panicking modules, panics after a shutdown request in the same callback, task handles given to join() or try_join() "
+        "modules whose Module::reset calls schedule_in / send_in (buf_process holds the event buffer lock while it runs reset: the library's "
+        "'Could not lock mutex' panic, with the buffer used again afterwards by other modules and by the restarted module), several panicking modules, panics after a shutdown request in the same callback, task handles given to join() or try_join() "
         "(tasks that finish, panic, are cancelled by a shutdown or are still asleep at the end), a family in which the dead module's "
         "left-over timers prolong the run and the other modules act in at_sim_end; each script is simulated twice in one "
         "process, and a third time with the panics of one module replaced by 'quiet' (falls silent) to compare the other modules' logs.  "
@@ -91,7 +93,10 @@ CLAIM = dict(
          "set_stereotyp action do not depend on the other four). Locks: des_net_utils::sync::Mutex guards the property slots and the "
          "process-global BUF_CTX; panics that begin under a property lock are scripted (closure panic, re-entrant access) and the lock must "
          "be usable afterwards; BUF_CTX is held by buf_process while it calls Module::reset, so the public send/schedule API panics with "
-         "'Could not lock mutex on single thread' when used from reset() (contained; Module::reset is not scripted by the runner). Before 09c7b16 (F19) "
+         "'Could not lock mutex on single thread' when used from reset(): scripted (per-module flag) and modelled as the code behaves -- "
+         "contained, reported as PanicError whatever the stereotype says (Harness::pass), nothing else of the shutdown/restart bookkeeping "
+         "changes (C09_reset_panic_frame); a panicking ChannelProbe on a zero-delay send (user code under BUF_CTX) is scripted as a panic of "
+         "the sender. Panicking destructors of message bodies run outside callbacks are out of scope (fixes/F20.md). Before 09c7b16 (F19) "
          "current().shutdow_and_restart_at(t) with t in the past was accepted inside the callback and rejected only when buf_process "
          "handed the restart event to the runtime, outside the panic harness -- run() itself panicked (not contained, not attributed): "
          "Refuted/C13.v (d), corpus/C13/library_panics.txt line 3; since the fix the call panics inside the callback and is scripted "
@@ -141,6 +146,9 @@ def check_panics(d, rs):
         for r in recs:
             if r[0] == R_RESET:
                 inc[m] = r[3]
+            if r[0] == R_RPANIC:
+                # Module::reset runs under Harness::pass: its panic is reported whatever the stereotype says
+                body_errs.append((0, m))
             if r[0] == R_SPAWN:
                 if r[3] != inc[m]:
                     raise Bad("module %d spawns task %d for incarnation %d but has been reset %d times" % (m, r[2], r[3], inc[m]))
@@ -153,7 +161,7 @@ def check_panics(d, rs):
                 if not any(sp[0] == r[3] and sp[1] == r[2] for sp in spawns[m]):
                     raise Bad("task %d of module %d (incarnation %d) ends but was never spawned" % (r[2], m, r[3]))
                 fate[(m, r[3], r[2])] = r[4]
-            if after and r[0] not in (R_CANCEL, R_RESET) and not (r[0] == R_TEND and r[4] == 2) and phase != "end":
+            if after and r[0] not in (R_CANCEL, R_RESET, R_RPANIC) and not (r[0] == R_TEND and r[4] == 2) and phase != "end":
                 raise Bad("module %d: %s follows the panic of its callback in the same event" % (m, r))
             if r[0] == R_SETCATCH:
                 catching[m] = r[3]
@@ -285,6 +293,8 @@ def mechanisms(script, out):
         return ms
     seen = set()
     lockp = set()       # modules that panicked while holding their property's lock
+    probed = set()      # modules whose channel probe panicked under the event buffer's lock
+    rpan = set()        # modules whose reset panicked (failed re-lock of the event buffer)
     incs = [0] * len(d["mods"])
     if any(mo.get("flags") for mo in d["mods"]):
         ms.add("stereotype_other_flags_set")
@@ -300,6 +310,9 @@ def mechanisms(script, out):
                 nowu = t if phase == "loop" else (0 if phase == "start" else next((x[3] for x in recs if x[0] in CALLS), 0))
                 if src in ("sched_past", "send_past", "restart_past") and nowu == 0:
                     ms.add("past_call_at_time_zero_panics_by_script")
+                elif src == "probe_send":
+                    ms.add("panic_in_channel_probe_under_buffer_lock" if nowu > 0 or phase != "end" else "probe_send_of_down_module")
+                    probed.add(r[1])
                 elif src in ("prop_panic", "prop_reenter"):
                     ms.add("panic_begins_while_property_lock_is_held")
                     ms.add("panic_by_reentrant_property_access" if src == "prop_reenter" else "panic_inside_prop_closure")
@@ -321,6 +334,17 @@ def mechanisms(script, out):
                         ms.add("library_panic_after_buffered_sends")
             if r[0] == R_RESET:
                 incs[r[1]] = r[3]
+            if r[0] == R_RPANIC:
+                ms.add("reset_calls_send_and_panics")
+                if d["mods"][r[1]]["catch"]:
+                    ms.add("reset_panic_of_catching_module_reported")
+                rpan.add(r[1])
+            if r[0] == R_START and phase == "loop" and r[1] in rpan:
+                ms.add("restart_after_panicking_reset")
+            if r[0] in (R_SEND, R_SCHED) and (rpan or probed):
+                ms.add("buffer_used_after_panic_under_its_lock")
+                if r[1] in rpan or r[1] in probed:
+                    ms.add("buffer_used_by_the_restarted_module_itself")
             if r[0] == R_LOG and r[3] >= 100 and (r[3] - 100) in lockp:
                 ms.add("property_read_after_lock_held_panic")
                 ms.add("property_read_by_other_module_after_lock_held_panic" if r[1] != r[3] - 100
@@ -433,6 +457,8 @@ def gen_script(rng):
         m["catch"] = rng.randint(0, 1)
         # the other four Stereotyp flags: des never reads them, any of the 16 combinations is legal
         m["flags"] = rng.choice([0, 2 | 4, 8, 8, 1 | 8, 15, rng.randrange(16)])
+        # Module::reset calls schedule_in / send_in (the library panics: buf_process holds the event buffer's lock)
+        m["rsend"] = rng.choice([0, 0, 0, 1, 2])
         # which JoinHandles go to join() rather than try_join()
         m["join"] = rng.choice([0, 0, 1, 2, 3, 5, 7]) if m["tasks"] else 0
     # the stereotype is a Cell: it may be changed in the very callback that panics (just before the panic!()), in an earlier
